@@ -1,8 +1,39 @@
 (** C15 — the property statements, instantiated with the real CRC-32C. *)
 From Coq Require Import List ZArith NArith Bool Lia Arith Sorted.
 From Kardia Require Import Base.ListX C15.Crc32c C15.ProofsCrc C15.Model C15.ProofsFrame C15.ProofsLog C15.ProofsGroup
-  Generated.C15Facts.
+  C15.ProofsSearch Generated.C15Facts.
 Import ListNotations.
+
+Lemma Forall2_in_l {A B} (R : A -> B -> Prop) l1 l2 x :
+  Forall2 R l1 l2 -> In x l1 -> exists y, In y l2 /\ R x y.
+Proof.
+  induction 1 as [|a b l1 l2 H _ IH]; intros I; [destruct I|].
+  destruct I as [->|I]; [exists b; split; [left; reflexivity|exact H]|].
+  destruct (IH I) as [y [Iy Ry]]. exists y. split; [right; exact Iy|exact Ry].
+Qed.
+
+Lemma Forall2_weaken {A B} (R S : A -> B -> Prop) l1 l2 :
+  (forall a b, R a b -> S a b) -> Forall2 R l1 l2 -> Forall2 S l1 l2.
+Proof. intros H F. induction F; constructor; auto. Qed.
+
+(** [drop_bytes n ps] drops records from the old end as long as removed bytes remain *)
+Fixpoint drop_bytes (n : nat) (ps : list bytes) : list bytes :=
+  match ps with
+  | [] => []
+  | p :: r => match n with O => ps | _ => drop_bytes (n - (8 + length p)) r end
+  end.
+
+Lemma drop_bytes_0 ps : drop_bytes 0 ps = ps.
+Proof. destruct ps; reflexivity. Qed.
+
+Lemma drop_bytes_app dropped rest : drop_bytes (length (frames crc32c dropped)) (dropped ++ rest) = rest.
+Proof.
+  induction dropped as [|p d IH]; [apply drop_bytes_0|].
+  rewrite (frames_cons crc32c), app_length, frame_length. cbn [app drop_bytes].
+  destruct (8 + length p + length (frames crc32c d)) as [|x] eqn:E; [lia|]. rewrite <- E.
+  replace (8 + length p + length (frames crc32c d) - (8 + length p)) with (length (frames crc32c d)) by lia. exact IH.
+Qed.
+
 
 Section Top.
   Variable msg : Type.
@@ -23,19 +54,48 @@ Section Top.
   Definition final_group (min : nat) (limit : Z) (ops : list wal_op) : group :=
     group_flush (wal_run crc (empty_group min limit) ops).
 
+  (** bytes removed by checkTotalSizeLimit ([WPrune]) along the run, and the records that are left *)
+  Definition pruned_bytes (min : nat) (limit : Z) (ops : list wal_op) : nat :=
+    run_pruned crc (empty_group min limit) ops.
+
+  Definition kept (min : nat) (limit : Z) (ops : list wal_op) : list bytes :=
+    drop_bytes (pruned_bytes min limit ops) (written min limit ops).
+
   Lemma final_files min limit ops :
-    exists chunks, disk_files (final_group min limit ops) = map frames chunks /\ concat chunks = written min limit ops.
+    exists dropped chunks, disk_files (final_group min limit ops) = map frames chunks /\
+                           concat chunks = kept min limit ops /\
+                           written min limit ops = dropped ++ kept min limit ops /\
+                           length (frames dropped) = pruned_bytes min limit ops.
   Proof.
-    apply (flushed_files crc _ (written min limit ops)).
-    change (written min limit ops) with ([] ++ run_written crc (empty_group min limit) ops). apply wal_run_inv. apply inv_empty.
+    destruct (flushed_files crc (wal_run crc (empty_group min limit) ops) (written min limit ops) (pruned_bytes min limit ops))
+      as [dr [chunks [D [C L]]]].
+    { change (written min limit ops) with ([] ++ run_written crc (empty_group min limit) ops).
+      change (pruned_bytes min limit ops) with (0 + run_pruned crc (empty_group min limit) ops).
+      apply wal_run_inv. apply inv_empty. }
+    assert (K : kept min limit ops = concat chunks).
+    { unfold kept. rewrite <- C, <- L. apply drop_bytes_app. }
+    exists dr, chunks. rewrite K. auto.
+  Qed.
+
+  (** pruning removes whole records from the old end only, exactly [pruned_bytes] bytes of them *)
+  Lemma top_kept_suffix min limit ops :
+    exists dropped, written min limit ops = dropped ++ kept min limit ops /\
+                    length (frames dropped) = pruned_bytes min limit ops.
+  Proof. destruct (final_files min limit ops) as [dr [chunks [_ [_ [W L]]]]]. eauto. Qed.
+
+  Lemma top_no_prune min limit ops :
+    (forall tl, ~ In (WPrune tl) ops) -> pruned_bytes min limit ops = 0 /\ kept min limit ops = written min limit ops.
+  Proof.
+    intro N. assert (P : pruned_bytes min limit ops = 0) by (apply run_pruned_none; exact N).
+    split; [exact P|]. unfold kept. rewrite P. apply drop_bytes_0.
   Qed.
 
   Lemma top_roundtrip min limit ops ms cont :
-    Forall2 good (written min limit ops) ms ->
+    Forall2 good (kept min limit ops) ms ->
     let g := final_group min limit ops in
     read_log crc msg deser cont RGroup (group_stream g (g_min g)) = map ObMsg ms ++ [ObEof].
   Proof.
-    intros G g. destruct (final_files min limit ops) as [chunks [D C]]. unfold g.
+    intros G g. destruct (final_files min limit ops) as [dr [chunks [D [C _]]]]. unfold g.
     rewrite group_stream_min, D, (concat_map_frames crc), C.
     apply (roundtrip crc crc32c_lt msg deser cont RGroup _ _ G).
   Qed.
@@ -45,8 +105,17 @@ Section Top.
   Proof. apply (roundtrip crc crc32c_lt msg deser). Qed.
 
   Lemma top_rotation min limit ops :
-    exists chunks, disk_files (final_group min limit ops) = map frames chunks /\ concat chunks = written min limit ops.
-  Proof. apply final_files. Qed.
+    exists chunks, disk_files (final_group min limit ops) = map frames chunks /\ concat chunks = kept min limit ops.
+  Proof. destruct (final_files min limit ops) as [dr [chunks [D [C _]]]]. eauto. Qed.
+
+  Lemma top_prune_sound tl g :
+    let k := pruned_count tl g in
+    let g' := check_total_size_limit tl g in
+    g_files g' = skipn k (g_files g) /\ g_head g' = g_head g /\ g_buf g' = g_buf g /\ g_min g' = g_min g + k /\
+    k <= N.to_nat max_files_to_remove /\ k <= length (g_files g) /\
+    (forall j, j < k -> tl <> 0%Z /\ (tl <= total_size g - Z.of_nat (length (concat (firstn j (g_files g)))))%Z) /\
+    (tl <> 0%Z -> k < N.to_nat max_files_to_remove -> k < length (g_files g) -> (total_size g' < tl)%Z).
+  Proof. apply prune_sound. Qed.
 
   Lemma top_decode_sound k bs m rest :
     wf_bytes bs -> decode crc msg deser k bs = OMsg m rest ->
@@ -86,6 +155,18 @@ Section Top.
     decode crc msg deser k (set_nth i b' (frame p) ++ rest) = OCorrupt CCrc rest.
   Proof. apply bitflip_detected. Qed.
 
+  Lemma top_bitflip_log cont k pre p post pre_ms post_ms i b' :
+    Forall2 good pre pre_ms -> Forall2 good post post_ms ->
+    wf_bytes p -> p <> [] -> (lenN p <= max_msg_size_bytes)%N ->
+    i < length (frame p) -> ~ (4 <= i < 8) -> (b' < 256)%N -> nth i (frame p) 0%N <> b' ->
+    read_log crc msg deser cont k (frames pre ++ set_nth i b' (frame p) ++ frames post) =
+      map ObMsg pre_ms ++ ObCorrupt CCrc :: (if cont then map ObMsg post_ms ++ [ObEof] else []).
+  Proof. apply bitflip_log. Qed.
+
+  Lemma top_suffix cont k ps ms tail :
+    Forall2 good ps ms -> read_log crc msg deser cont k (frames ps ++ tail) = map ObMsg ms ++ read_log crc msg deser cont k tail.
+  Proof. apply (read_log_frames_app crc crc32c_lt msg ser deser). Qed.
+
   Lemma top_lenflip k l' p rest m' r' :
     length l' = 4 -> wf_bytes l' -> wf_bytes p -> wf_bytes rest -> (lenN p < 4294967296)%N ->
     l' <> be32 (lenN p) ->
@@ -99,21 +180,112 @@ Section Top.
   Notation pos_marks := (pos_marks msg deser end_height).
 
   Lemma top_search min limit ops h ign :
-    Forall (goodp msg deser) (written min limit ops) -> StronglySorted Z.lt (pos_marks (written min limit ops)) ->
+    Forall (goodp msg deser) (kept min limit ops) -> StronglySorted Z.lt (pos_marks (kept min limit ops)) ->
     let g := final_group min limit ops in
-    (forall pre p0 post, (0 < h)%Z -> written min limit ops = pre ++ p0 :: post -> mark p0 = Some h ->
+    (forall pre p0 post, (0 < h)%Z -> kept min limit ops = pre ++ p0 :: post -> mark p0 = Some h ->
        search crc msg deser end_height g h ign = SFound (frames post)) /\
-    ((h <= 0)%Z -> In h (marks (written min limit ops)) -> exists rest, search crc msg deser end_height g h ign = SFound rest) /\
-    (~ In h (marks (written min limit ops)) -> search crc msg deser end_height g h ign = SNotFound).
+    ((h <= 0)%Z -> In h (marks (kept min limit ops)) -> exists rest, search crc msg deser end_height g h ign = SFound rest) /\
+    (~ In h (marks (kept min limit ops)) -> search crc msg deser end_height g h ign = SNotFound).
   Proof.
-    intros G S g. destruct (final_files min limit ops) as [chunks [D C]]. subst g. rewrite <- C in *.
+    intros G S g. destruct (final_files min limit ops) as [dr [chunks [D [C _]]]]. subst g. rewrite <- C in *.
     apply (search_iff crc crc32c_lt msg deser end_height _ chunks h ign D G S).
   Qed.
+
+  (** any number of records damaged in CRC field or payload *)
+  Lemma top_search_damaged g chunks h :
+    disk_files g = map (istream crc) chunks -> Forall (iok crc msg deser) (concat chunks) ->
+    StronglySorted Z.lt (ipos_marks msg deser end_height (concat chunks)) ->
+    (forall pre p0 post, (0 < h)%Z -> concat chunks = pre ++ IGood p0 :: post -> mark p0 = Some h ->
+       search crc msg deser end_height g h true = SFound (istream crc post)) /\
+    ((h <= 0)%Z -> In h (imarks msg deser end_height (concat chunks)) ->
+       exists rest, search crc msg deser end_height g h true = SFound rest) /\
+    (~ In h (imarks msg deser end_height (concat chunks)) -> search crc msg deser end_height g h true = SNotFound) /\
+    (search crc msg deser end_height g h false = search crc msg deser end_height g h true \/
+     exists c, bad_class (concat chunks) c /\ search crc msg deser end_height g h false = SErr c).
+  Proof. apply (search_damaged crc crc32c_lt). Qed.
+
+  Lemma top_flipped_steps_over p i b' :
+    wf_bytes p -> p <> [] -> (lenN p <= max_msg_size_bytes)%N ->
+    i < length (frame p) -> ~ (4 <= i < 8) -> (b' < 256)%N -> nth i (frame p) 0%N <> b' ->
+    iok crc msg deser (IBad (set_nth i b' (frame p)) CCrc).
+  Proof. intros W NE L Hi Ho Hb Hn rest. apply bitflip_detected; auto. Qed.
 
   Lemma top_repair ps ms tail :
     Forall2 (canon msg ser deser) ps ms -> (forall m r, decode crc msg deser RFile tail <> OMsg m r) ->
     repair crc msg ser deser (frames ps ++ tail) = (frames ps, true).
   Proof. apply (repair_prefix crc crc32c_lt). Qed.
+
+  Lemma top_repair_truncated ps ms n :
+    Forall2 (canon msg ser deser) ps ms -> n < length (frames ps) ->
+    (exists j, repair crc msg ser deser (firstn n (frames ps)) = (frames (firstn j ps), true)) \/
+    (exists p, In p ps /\ collision crc msg deser p).
+  Proof. apply (repair_truncated crc crc32c_lt). Qed.
+
+  (** the OnStart steps: backup by copy (the corrupted file stays in place), repair in place *)
+  Lemma top_repair_onstart ps ms tail :
+    Forall2 (canon msg ser deser) ps ms -> (forall m r, decode crc msg deser RFile tail <> OMsg m r) ->
+    repair_onstart crc msg ser deser (frames ps ++ tail) = (frames ps ++ tail, frames ps, true).
+  Proof.
+    intros C T. unfold repair_onstart. rewrite (repair_prefix crc crc32c_lt msg ser deser ps ms tail C T). reflexivity.
+  Qed.
+
+  (** why the truncation in os.Create matters: written over the corrupted file WITHOUT truncating it,
+      the repaired prefix changes nothing — the file stays the corrupted one *)
+  Lemma top_repair_needs_truncate ps ms tail :
+    Forall2 (canon msg ser deser) ps ms -> (forall m r, decode crc msg deser RFile tail <> OMsg m r) -> tail <> [] ->
+    let wal := frames ps ++ tail in
+    file_overwrite wal (fst (repair crc msg ser deser wal)) = wal /\ wal <> frames ps.
+  Proof.
+    intros C T NE wal. unfold wal. rewrite (repair_prefix crc crc32c_lt msg ser deser ps ms tail C T). cbn [fst].
+    unfold file_overwrite. split.
+    - rewrite skipn_app, skipn_all, Nat.sub_diag. reflexivity.
+    - intro E. apply NE. rewrite <- (app_nil_r (frames ps)) in E at 2. apply app_inv_head in E. exact E.
+  Qed.
+
+  (** a group whose rotated files are intact and whose head is damaged after [cur]: after the OnStart
+      repair steps the whole group reads back as every message of the rotated files and the head's
+      longest valid prefix, then a clean end-of-log — the second catchupReplay does not hit the damage *)
+  Lemma top_repair_group g chunks cur tail ms cont :
+    g_files g = map frames chunks -> g_head g = frames cur ++ tail ->
+    Forall2 (canon msg ser deser) (concat chunks ++ cur) ms ->
+    (forall m r, decode crc msg deser RFile tail <> OMsg m r) ->
+    let g' := fst (repair_head crc msg ser deser g) in
+    snd (repair_head crc msg ser deser g) = true /\
+    disk_files g' = map frames (chunks ++ [cur]) /\
+    read_log crc msg deser cont RGroup (group_stream g' (g_min g')) = map ObMsg ms ++ [ObEof].
+  Proof.
+    intros F H C T g'.
+    destruct (Forall2_app_inv_l _ _ C) as [ms1 [ms2 [C1 [C2 E]]]].
+    assert (R := repair_head_spec crc crc32c_lt msg ser deser g cur tail ms2 H C2 T).
+    unfold g'. rewrite R. cbn [fst snd]. split; [reflexivity|].
+    assert (D : disk_files (mkGroup (g_min g) (g_files g) (frames cur) [] (g_limit g)) = map frames (chunks ++ [cur])).
+    { unfold disk_files. cbn [g_files g_head]. rewrite F, map_app. reflexivity. }
+    split; [exact D|].
+    rewrite group_stream_min, D, (concat_map_frames crc), concat_app. cbn [concat]. rewrite app_nil_r.
+    apply (roundtrip crc crc32c_lt msg deser cont RGroup).
+    eapply Forall2_weaken; [|exact C]. intros p m [G _]. exact G.
+  Qed.
+
+  (** and SearchForEndHeight on the repaired group behaves as on an undamaged one holding those records *)
+  Lemma top_repair_group_search g chunks cur tail ms h ign :
+    g_files g = map frames chunks -> g_head g = frames cur ++ tail ->
+    Forall2 (canon msg ser deser) (concat chunks ++ cur) ms ->
+    (forall m r, decode crc msg deser RFile tail <> OMsg m r) ->
+    StronglySorted Z.lt (pos_marks (concat chunks ++ cur)) ->
+    let g' := fst (repair_head crc msg ser deser g) in
+    (forall pre p0 post, (0 < h)%Z -> concat chunks ++ cur = pre ++ p0 :: post -> mark p0 = Some h ->
+       search crc msg deser end_height g' h ign = SFound (frames post)) /\
+    ((h <= 0)%Z -> In h (marks (concat chunks ++ cur)) -> exists rest, search crc msg deser end_height g' h ign = SFound rest) /\
+    (~ In h (marks (concat chunks ++ cur)) -> search crc msg deser end_height g' h ign = SNotFound).
+  Proof.
+    intros F H C T S g'.
+    destruct (top_repair_group g chunks cur tail ms true F H C T) as [_ [D _]]. fold g' in D.
+    assert (E : concat (chunks ++ [cur]) = concat chunks ++ cur) by (rewrite concat_app; cbn; rewrite app_nil_r; reflexivity).
+    rewrite <- E in *.
+    apply (search_iff crc crc32c_lt msg deser end_height g' (chunks ++ [cur]) h ign D); auto.
+    apply Forall_forall. intros p I.
+    destruct (Forall2_in_l _ _ _ _ C I) as [m [_ [G _]]]. exists m. exact G.
+  Qed.
 End Top.
 
 (** ** the hypotheses are satisfiable, and the model runs: a toy codec whose payload is one
@@ -147,6 +319,34 @@ Example toy_search_after_restart :
   written 0 10 ops = [[1%N]; [4%N]; [5%N]; [1%N]] /\
   search crc32c Z toy0_deser toy_eh (final_group 0 10 ops) 3 true = SFound (frames crc32c [[5%N]; [1%N]]) /\
   search crc32c Z toy0_deser toy_eh (final_group 0 10 ops) 4 true = SFound (frame crc32c [1%N]).
+Proof. vm_compute. repeat split; reflexivity. Qed.
+
+(** pruning: three one-record files of 9 bytes each, total-size limit 20: the oldest file goes (27 >= 20,
+    then 18 < 20), its record is no longer found, the younger ones are *)
+Example toy_prune :
+  let ops := [WWriteSync [3%N]; WRotate; WWriteSync [4%N]; WRotate; WWriteSync [5%N]; WPrune 20] in
+  written 0 0 ops = [[3%N]; [4%N]; [5%N]] /\ pruned_bytes 0 0 ops = 9 /\ kept 0 0 ops = [[4%N]; [5%N]] /\
+  g_min (final_group 0 0 ops) = 1 /\
+  search crc32c Z toy_deser toy_eh (final_group 0 0 ops) 3 true = SNotFound /\
+  search crc32c Z toy_deser toy_eh (final_group 0 0 ops) 4 true = SFound (frame crc32c [5%N]).
+Proof. vm_compute. repeat split; reflexivity. Qed.
+
+(** the OnStart repair inside a group: one intact rotated file, a head with one good record and garbage *)
+Example toy_repair_group :
+  let g := mkGroup 0 [frame crc32c [3%N]] (frame crc32c [7%N] ++ [1%N; 2%N; 3%N]) [] 0 in
+  repair_head crc32c Z toy_ser toy_deser g = (mkGroup 0 [frame crc32c [3%N]] (frame crc32c [7%N]) [] 0, true).
+Proof. vm_compute. reflexivity. Qed.
+
+(** a damaged record between two markers: with IgnoreDataCorruptionErrors both markers are still found,
+    without it the older one (the damage lies behind it in the same file) is, the younger is not *)
+Example toy_search_damaged :
+  let bad := set_nth 8 9%N (frame crc32c [5%N]) in
+  let g := mkGroup 0 [] (frame crc32c [3%N] ++ bad ++ frame crc32c [7%N]) [] 0 in
+  search crc32c Z toy_deser toy_eh g 7 true = SFound [] /\
+  search crc32c Z toy_deser toy_eh g 3 true = SFound (bad ++ frame crc32c [7%N]) /\
+  search crc32c Z toy_deser toy_eh g 5 true = SNotFound /\
+  search crc32c Z toy_deser toy_eh g 3 false = SFound (bad ++ frame crc32c [7%N]) /\
+  search crc32c Z toy_deser toy_eh g 7 false = SErr CCrc.
 Proof. vm_compute. repeat split; reflexivity. Qed.
 
 (** the zero-fill behaviour of the os.File reader is real: a frame whose payload ends in a zero
